@@ -11,7 +11,7 @@ EXTENDS ZConform, IOUtils
 
 (* Non-ASCII white space used by layout rewrites (str.isspace() is true    *)
 (* for each; stated here, checked against Python by the harness).          *)
-MCExtSpace == {"~u3000;", "~ua0;", "~u2003;"}
+MCExtSpace == {"~u3000;", "~ua0;", "~u2003;", "~u2028;"}
 
 TFile == JsonDeserialize(IOEnv.TRACE_FILE)
 Scn   == TFile.scn
